@@ -122,7 +122,7 @@ def mc(rep, tier, wd):
         if t["stmt"]["op"] not in ("set", "set2", "opassign", "opassign2", "pop"):
             continue
         nested_only = any(s["op"] in ("nested", "nestedd", "set2", "opassign2") for s in seq)
-        has_dictrows = any(s["op"] == "nestedd" for s in seq) and not any(s["op"] in ("nested", "flat", "set2") for s in seq)
+        has_dictrows = any(s["op"] == "nestedd" for s in seq) and not any(s["op"] in ("nested", "flat") for s in seq)
         for kind in (kinds if not has_dictrows else list(dict.fromkeys(kinds + ["dict"]))):
             if nested_only and kind != "list" and not (kind == "dict" and has_dictrows):
                 continue
@@ -175,15 +175,17 @@ def mc(rep, tier, wd):
 
 def drive(rep, tier, seed):
     rng = random.Random(seed + 2)
-    nw = 40 if tier == "quick" else 400
+    nw = 48 if tier == "quick" else 400
+    kinds_rr = ["list", "dictrows", "dict", "rows", "vec", "field", "bytes", "nested", "list"]
     cases, plans = [], []
     for _ in range(nw):
-        kind = rng.choice(["list", "list", "dict", "vec", "bytes", "nested", "rows", "dictrows", "field"])
+        # every kind gets its share whatever the seed (round robin over the non-stack workloads)
+        kind = kinds_rr[sum(1 for q in plans if q["kind"] != "stack") % len(kinds_rr)]
         base = "dict" if kind == "dictrows" else ("list" if kind in ("nested", "rows", "field") else kind)
         n = rng.choice([2000, 4000, 8000]) * (10 if kind == "bytes" else 1)
         eb = KINDS[base][0]
         nstack = sum(1 for q in plans if q["kind"] == "stack")
-        if nstack < 4 or rng.random() < 0.15:
+        if nstack < 4 or rng.random() < 0.08:
             # a list used as a stack: grown in bulk, popped in bulk down to a length next to a power of two
             # (where capacity policies have their boundaries), then single appends / pops around it
             top = rng.randint(1500, 9000)
@@ -207,7 +209,7 @@ def drive(rep, tier, seed):
                 stmts.append({"op": "alias", "v": "y", "w": "x"})
                 continue
             if kind in ("rows", "dictrows", "field"):
-                forms = ["opassign2"] if kind == "dictrows" else ["opassign2", "opassign2", "set2"]
+                forms = ["opassign2", "opassign2", "set2"]
             else:
                 forms = ["set", "opassign"] + (["pop"] if base == "list" else []) + (["set2", "set2", "opassign2"] if kind == "nested" else [])
             f = rng.choice(forms)
@@ -215,7 +217,7 @@ def drive(rep, tier, seed):
             if f in ("set2", "opassign2"):
                 s["i"] = 1 if kind == "field" else rng.randint(1, 3)
                 s["field"] = kind == "field"
-            s["var"] = rng.randrange(nvariants(base, f)) if kind != "dictrows" else 0
+            s["var"] = rng.randrange(nvariants(base, f))
             s["nested"] = kind in ("nested", "rows")
             stmts.append(s)
         srcs = redeclare_safe([render(s, base, n) for s in stmts])
